@@ -78,7 +78,7 @@ class C11Disk(Scenario):
         if r < 92:
             return {"op": "export_self", "style": rng.choice(("abs", "rel", "path", "relpath", "dirlink", "home", "dirlinkpath"))}
         if r < 93:
-            return {"op": "clear"}
+            return {"op": "clear"} if rng.chance(1, 2) else {"op": "setcount", "v": rng.choice((0, 3, 1000))}
         if r < 96:
             # a second on-disk filter with the SAME file name in another directory, always spelled relative to its
             # own directory: the two backing files must not influence each other
@@ -103,6 +103,7 @@ class C11Disk(Scenario):
             self.ctx.probe("instruction_level_run")
         self.scr = seams.Scratch(self.ctx.scratch)
         self.scr.chdir(cfg["cwd"])
+        seams.SURROGATE_OK = cfg["hash"] == "fnv"
         self.hf = seams.make_list_hash(cfg["hash"], cfg["hseed"], cfg["squeeze"])
         self.m, self.k = common.geometry(cfg["est"], cfg["rate"])
         self.path = self.scr.abspath(cfg["dir"], FNAME)
@@ -118,6 +119,7 @@ class C11Disk(Scenario):
         self.twin = self.new_twin()
         self.last_add_lines = (8 + 4 * self.k) * (6 if cfg.get("instr") else 1)
         self.kills = 0
+        self.count_unsynced = None
         self.check_after_return("create", None)
         if not cfg["fault_free"]:
             self.ctx.nontrivial = True
@@ -177,7 +179,10 @@ class C11Disk(Scenario):
                 if not common.bit_set(arr, p):
                     raise Violation("image_lost_key", f"{where}: completed addition of key {kk} has bit {p} clear in the file",
                                     sig)
-        if inflight is None:
+        stale = getattr(self, "count_unsynced", None)
+        if stale is not None and cnt in (stale, stale + 1):
+            pass  # the caller has just assigned elements_added; the file still shows the count before the assignment
+        elif inflight is None:
             if cnt != n:
                 raise Violation("image_count_wrong", f"{where}: recorded count {cnt}, completed additions {n}", sig)
         else:
@@ -259,6 +264,8 @@ class C11Disk(Scenario):
         return killed, kill_img, n_events
 
     def check_after_return(self, phase, sig):
+        if phase in ("add", "close", "export", "final close", "drop", "clear", "close after final reopen"):
+            self.count_unsynced = None
         self.refresh_cache()
         img = self.read_backing()
         sig = sig or {"phase": phase, "op": phase}
@@ -392,6 +399,18 @@ class C11Disk(Scenario):
             ctx.fault("export_to_own_path")
             self.check_after_return("export", sig)
             return {"r": "ok"}
+        if op == "setcount":
+            if self.f is None:
+                return "skip"
+            # elements_added is documented as settable; the file catches up at the next add / close / export, and the
+            # in-memory twin gets the same assignment, so 'identical after close' still decides
+            self.f.elements_added = step["v"]
+            self.twin.elements_added = step["v"]
+            if self.count_unsynced is None:
+                self.count_unsynced = self.count  # what the file shows until the next add / close / export
+            self.count = step["v"]
+            ctx.fault("counter_set")
+            return {"r": "ok"}
         if op == "clear":
             if self.f is None:
                 return "skip"
@@ -456,9 +475,13 @@ class C11Disk(Scenario):
         with open(self.path, "wb") as fh:
             fh.write(img)
         est, cnt, rate = common.bloom_footer(img)
-        if inflight is not None and cnt == self.count + 1:
-            self.done.append(inflight)  # rule 3 established that its bits are all there
+        if inflight is not None and cnt == self.count + 1 and all(
+                common.bit_set(img[:-20], p) for p in self.key_pos(inflight)):
+            # rule 3 established that its bits are all there (re-checked here because after a caller-set counter the
+            # stale count in the file can coincide with count + 1)
+            self.done.append(inflight)
         self.count = cnt
+        self.count_unsynced = None  # an assignment that had not reached the file died with the process
         self.twin = self.new_twin(img)
         self.refresh_cache()
         self.do_reopen("abs", "restart after kill")
